@@ -6,7 +6,7 @@
     - the loader admits only plain components; verdicts depend on the filesystem only through
       what the root resolves to (C13). *)
 From Coq Require Import NArith ZArith List Bool Lia ZifyN ZifyBool.
-From Imdl Require Import Base.Chunks Model.Bencode Model.Fs Model.Verify Proofs.FsProofs.
+From Imdl Require Import Base.Chunks Model.Bencode Model.BencodeWide Model.Fs Model.Verify Proofs.FsProofs Proofs.LoaderProofs.
 Import ListNotations.
 Local Open Scope N_scope.
 
@@ -55,6 +55,12 @@ Qed.
 Lemma load_file_plain v f : load_file v = Some f -> plain_path (fpath f).
 Proof.
   unfold load_file. destruct v as [z|s|l|d]; try discriminate.
+  { destruct l as [|lv [|pv rest]]; try discriminate.
+    destruct (load_u64 lv); [|discriminate]. destruct (load_path pv) as [p|] eqn:Ep; [|discriminate].
+    pose proof (load_path_plain pv p Ep) as Hp.
+    destruct rest as [|mv [|x r]]; try discriminate.
+    - intros E. inversion E; subst. exact Hp.
+    - destruct (load_md5 mv); [|discriminate]. intros E. inversion E; subst. exact Hp. }
   destruct (dlookup K_length d) as [lv|]; [|discriminate].
   destruct (dlookup K_path d) as [pv|]; [|discriminate].
   destruct (load_u64 lv); [|discriminate].
@@ -89,8 +95,13 @@ Qed.
 
 Theorem load_screens tb t : load tb = Some t -> Forall (fun f => plain_path (fpath f)) (files_of t).
 Proof.
-  unfold load. destruct (decode _ tb) as [[v r]|]; [|discriminate]. apply load_value_plain.
+  unfold load. destruct (wdecode _ tb) as [[v r]|]; [|discriminate]. apply load_value_plain.
 Qed.
+
+(** ... and so does the typed loader the command uses ([typed_rejects_more]) *)
+Theorem load_typed_screens hd un tb t :
+  load_typed hd un tb = Some t -> Forall (fun f => plain_path (fpath f)) (files_of t).
+Proof. intros Hl. exact (load_screens tb t (typed_rejects_more hd un tb t Hl)). Qed.
 
 (** the same at the level of the stored dictionary: a multi-file torrent (no usable single-file
     reading) that lists a component which is not a plain name is not loaded at all *)
@@ -137,7 +148,6 @@ Section VerifyProofs.
 Variable H : bytes -> bytes.
 Variable MD5 : bytes -> bytes.
 Variable sch : nat -> N.
-
 Notation feed := (feed H).
 Notation read_loop := (read_loop H sch).
 Notation hash_path := (hash_path H sch).
@@ -146,7 +156,6 @@ Notation status := (status MD5).
 Notation run_entries := (run_entries H MD5 sch).
 Notation verify_metainfo := (verify_metainfo H MD5 sch).
 Notation verify := (verify H MD5 sch).
-Notation verify_cmd := (verify_cmd H MD5 sch).
 Notation holds_file := (holds_file MD5).
 Notation file_ok := (file_ok MD5).
 Notation spec_good := (spec_good H MD5).
@@ -337,11 +346,17 @@ Proof.
   split; [intros E; inversion E; lia|intros [-> _]; reflexivity].
 Qed.
 
+(** ** the command: it loads through the typed loader ([load_typed], Proofs/LoaderProofs.v) *)
+Variable host_disp : bytes -> option bytes.
+Variable url_norm : bytes -> option bytes.
+Notation load_typed := (load_typed host_disp url_norm).
+Notation verify_cmd := (verify_cmd H MD5 sch host_disp url_norm).
+
 (** the fuel of the read loop always suffices: the command always has an outcome *)
 Theorem verify_cmd_total fs cwd content base input tb : verify_cmd fs cwd content base input tb <> None.
 Proof.
   unfold Verify.verify_cmd. destruct (negb (args_ok content base input)); [discriminate|].
-  destruct (load tb) as [t|]; [|discriminate].
+  destruct (load_typed tb) as [t|]; [|discriminate].
   destruct (env_resolve cwd _) as [root|]; [|discriminate].
   destruct (verifier_new t) as [p|] eqn:Ep; [|discriminate].
   apply verifier_new_some in Ep. destruct Ep as [-> Hr].
@@ -353,14 +368,14 @@ Qed.
 Theorem verify_cmd_success_iff fs cwd content base input tb :
   verify_cmd fs cwd content base input tb = Some Success <->
   args_ok content base input = true /\
-  exists t root, load tb = Some t /\
+  exists t root, load_typed tb = Some t /\
                  env_resolve cwd (content_root content base input (tname t)) = Some root /\
                  0 < tplen t < 2 ^ 32 /\
                  spec_good (tplen t) fs root t.
 Proof.
   unfold Verify.verify_cmd. destruct (args_ok content base input); cbn [negb];
     [|split; [discriminate|intros [? _]; discriminate]].
-  destruct (load tb) as [t|]; [|split; [discriminate|intros (_ & t & r & ? & _); discriminate]].
+  destruct (load_typed tb) as [t|]; [|split; [discriminate|intros (_ & t & r & ? & _); discriminate]].
   destruct (env_resolve cwd _) as [root|] eqn:Er;
     [|split; [discriminate|intros (_ & t' & r & E & E' & _); inversion E; subst; congruence]].
   destruct (verifier_new t) as [p|] eqn:Ep.
@@ -378,7 +393,7 @@ Qed.
 
 (** never success when nothing can have been hashed *)
 Theorem never_good_unhashed fs cwd content base input tb t :
-  load tb = Some t -> tplen t = 0 -> verify_cmd fs cwd content base input tb <> Some Success.
+  load_typed tb = Some t -> tplen t = 0 -> verify_cmd fs cwd content base input tb <> Some Success.
 Proof.
   intros Hl Hz Hs. apply verify_cmd_success_iff in Hs.
   destruct Hs as (_ & t' & r & E & _ & Hr & _). assert (t' = t) by congruence. subst t'. lia.
@@ -421,14 +436,14 @@ Proof.
 Qed.
 
 Theorem verify_cmd_confined fs fs' cwd content base input tb :
-  (forall t root, load tb = Some t ->
+  (forall t root, load_typed tb = Some t ->
                   env_resolve cwd (content_root content base input (tname t)) = Some root ->
                   resolve fs root = resolve fs' root) ->
   verify_cmd fs cwd content base input tb = verify_cmd fs' cwd content base input tb.
 Proof.
-  intros Hsame. pose proof (load_screens tb) as Hscr.
+  intros Hsame. pose proof (load_typed_screens host_disp url_norm tb) as Hscr.
   unfold Verify.verify_cmd. destruct (negb (args_ok content base input)); [reflexivity|].
-  destruct (load tb) as [t|]; [|reflexivity].
+  destruct (load_typed tb) as [t|]; [|reflexivity].
   destruct (env_resolve cwd _) as [root|] eqn:Er; [|reflexivity].
   destruct (verifier_new t) as [p|]; [|reflexivity].
   rewrite (verify_metainfo_confined fs fs' p root t (Hscr t eq_refl) (Hsame t root eq_refl Er)).
@@ -439,7 +454,7 @@ Qed.
     the root's own node, and does not leave the root lexically *)
 Theorem success_confined fs cwd content base input tb :
   verify_cmd fs cwd content base input tb = Some Success ->
-  exists t root, load tb = Some t /\
+  exists t root, load_typed tb = Some t /\
     env_resolve cwd (content_root content base input (tname t)) = Some root /\
     forall f, In f (files_of t) ->
       plain_path (fpath f) /\
@@ -449,18 +464,18 @@ Theorem success_confined fs cwd content base input tb :
 Proof.
   intros Hs. apply verify_cmd_success_iff in Hs. destruct Hs as (_ & t & root & El & Er & _ & _).
   exists t, root. split; [exact El|]. split; [exact Er|]. intros f Hf.
-  pose proof (load_screens tb t El) as Hpl. rewrite Forall_forall in Hpl. specialize (Hpl f Hf).
+  pose proof (load_typed_screens host_disp url_norm tb t El) as Hpl. rewrite Forall_forall in Hpl. specialize (Hpl f Hf).
   split; [exact Hpl|]. split; [apply plain_never_escapes; exact Hpl|apply resolve_absolute_plain; exact Hpl].
 Qed.
 
 (** whatever lies outside the root: a torrent that lists an escaping path never succeeds *)
 Theorem escape_never_good fs cwd content base input tb t :
-  load tb = Some t ->
+  load_typed tb = Some t ->
   (exists f root, In f (files_of t) /\ lex_escapes root (fpath f) = true) ->
   verify_cmd fs cwd content base input tb <> Some Success.
 Proof.
   intros El (f & root & Hf & He) _.
-  pose proof (load_screens tb t El) as Hpl. rewrite Forall_forall in Hpl.
+  pose proof (load_typed_screens host_disp url_norm tb t El) as Hpl. rewrite Forall_forall in Hpl.
   rewrite (plain_never_escapes root (fpath f) (Hpl f Hf)) in He. discriminate.
 Qed.
 
